@@ -449,3 +449,13 @@ package sem
 // ---- sixth batch: re-acquisition through helpers
 //@ func readLockedC(k) r
 //@   props E00
+
+// ---- seventh batch: counting loops without an invariant
+//@ func indexLoop(a) r
+//@   props E00
+//@   panics never
+//@   modifies nothing
+//@ func indexLoopFromMinusOne(a) r
+//@   props E00
+//@   panics never
+//@   modifies nothing
